@@ -5,7 +5,11 @@ Workload: generated acyclic packages (vf.gen.packages) whose modules get, append
 values, bases, decorators, parameter annotations/defaults/returns at module level, in a class body
 (with members that deliberately shadow module globals and imports) and in a nested class.  Names
 are drawn from everything bound in the module (definitions, plain/aliased/dotted/relative imports,
-wildcard-imported names), dotted attribute chains, builtins and unknown names.
+wildcard-imported names), dotted attribute chains, builtins and unknown names.  Identifiers spelled
+like a scope around the site are part of the space: module-level bindings, class members and
+class-level import aliases named like the containing module, an ancestor package, another module or
+the class itself (bound and unbound); class and nested-class sites take every site form (method
+decorators and bases of nested classes included).
 Oracle (M-REF, identity): a CPython child really imports the package, evaluates each reference with
 Python's scoping rule for that site (``eval(expr, module globals, vars(class))``) and walks the
 path Griffe answered (import the longest module prefix, then getattr): both must be the *same
@@ -24,9 +28,11 @@ PROP = "C04"
 LEVEL = "exploration"
 ANCHORS = ["agents/nodes/imports.py", "expressions.py"]
 RULE = ("generated acyclic packages (3-8 modules) + appended reference sites: per module ~6 module-level sites, ~5 "
-        "class-level sites in a class whose members shadow globals/imports, ~3 sites in a nested class; site kinds: "
-        "annotation, value, base class, decorator, parameter annotation, parameter default, return annotation; reference "
-        "expressions: bound names, dotted chains through module aliases/classes, builtins, unknown names. distinct = "
+        "class-level sites in a class whose members shadow globals/imports, ~3 sites in a nested class; site kinds (all "
+        "three scopes): annotation, value, base class, decorator, parameter annotation, parameter default, return annotation; reference "
+        "expressions: bound names, dotted chains through module aliases/classes, builtins, unknown names, names spelled like "
+        "the containing module / a package / another module / the enclosing class (bound at module level, as class member, "
+        "as class-level import alias, or unbound). distinct = "
         "digest of files; non-trivial = package with >=1 relative import, >=1 aliased import and >=1 shadowed name")
 LEVEL_TEXT = ("Every reference site of every generated package is resolved by Griffe (canonical_path of the stored "
               "expression's name/attribute chain) and by CPython (eval in the site's real scope after really importing the "
@@ -36,7 +42,10 @@ LEVEL_NOTE = ("trusted: CPython eval/getattr in a child; sites sit at the end of
               "final binding; class scopes do not nest (Python rule) - Griffe's enclosing-class lookup is a listed finding")
 TECHNIQUE = "runtime monitoring: identity oracle against really imported objects + contract on Object.resolve"
 REQUIRED_COUNTERS = ["packages_compared", "sites_compared", "bound_names_identical", "unbound_or_builtin_unchanged",
-                     "resolve_contract_evals", "dotted_chains_compared", "class_scope_sites", "nested_class_sites"]
+                     "resolve_contract_evals", "dotted_chains_compared", "class_scope_sites", "nested_class_sites",
+                     "module_named_bound_roots_in_class_scope", "module_named_bound_roots_in_module_scope",
+                     "other_module_or_package_named_roots_bound", "class_named_bound_roots_in_class_scope",
+                     "decorator_or_base_sites_in_class_scope"]
 EXHAUSTIVE = {"quick": False, "thorough": False}
 ASSUMPTIONS = ["reference sites are never executed (if TYPE_CHECKING) and are judged against the final bindings of their scope"]
 _SERVER: RefServer | None = None
@@ -99,7 +108,10 @@ def resolve_sites(req):
                 try:
                     o2 = walk(s["griffe"])
                     r["walk"] = ident(o2)
-                    r["same"] = (o1 is o2) or (isinstance(o1, str) and isinstance(o2, str) and o1 == o2)
+                    # identity; strings by value (unique literals); bound methods are fresh wrappers on every getattr
+                    # (e.g. `mod.__dir__` inherited from the module type) and compare equal iff same self and function
+                    r["same"] = (o1 is o2) or (isinstance(o1, str) and isinstance(o2, str) and o1 == o2) or (
+                        type(o1) is type(o2) and isinstance(o1, (types.MethodType, types.BuiltinMethodType)) and o1 == o2)
                 except BaseException as e:
                     r["walk"] = {"k": "error", "id": type(e).__name__ + ": " + str(e)[:120]}
                     r["same"] = False
@@ -167,14 +179,47 @@ def shards(tier: str, seed: int) -> list[dict]:
 
 
 # -- site generation ---------------------------------------------------------------------------
+FORMS_CLASS = ["ann", "value", "param", "ret", "default", "deco", "base"]
+FORMS_MODULE = ["ann", "value", "base", "deco", "param", "ret", "default"]
+
+
+def mangles(name: str) -> bool:
+    """Class-private spelling: the compiler rewrites such identifiers inside a class body (``_Class__name``), which neither
+    ``eval`` in the child nor Griffe models - kept out of class-level sites (domain restriction)."""
+    return name.startswith("__") and not name.endswith("__")
+
+
+def emit_site(form: str, nm: str, e: str, pad: str, method: bool) -> tuple[str, tuple]:
+    """Source text of one reference site named ``nm`` holding expression ``e`` + where to find it in the Griffe tree."""
+    slf = "self, " if method else ""
+    if form == "ann":
+        return f"{pad}{nm}: {e} = None", ("attr-annotation", nm)
+    if form == "value":
+        return f"{pad}{nm} = [{e}]", ("attr-value", nm)
+    if form == "base":
+        return f"{pad}class {nm}({e}): ...", ("base", nm)
+    if form == "deco":
+        return f"{pad}@{e}\n{pad}def {nm}({slf.rstrip(', ')}): ...", ("decorator", nm)
+    if form == "param":
+        return f"{pad}def {nm}({slf}p: {e}): ...", ("param-annotation", nm)
+    if form == "ret":
+        return f"{pad}def {nm}({slf.rstrip(', ')}) -> {e}: ...", ("return", nm)
+    return f"{pad}def {nm}({slf}p={e}): ...", ("param-default", nm)
+
+
 def add_sites(rng: random.Random, pkg: packages.Pkg) -> dict[str, list[dict]]:  # noqa: C901
     """Append reference sites to every module; returns module -> list of site descriptors."""
     sites: dict[str, list[dict]] = {}
     for mod in pkg.order:
         names = [n for n in pkg.defs[mod] if n != "__all__"]
         kinds = pkg.defs[mod]
+        own = mod.rsplit(".", 1)[-1]
+        # identifiers spelled like a structural name around the site: the containing module (weighted), its ancestor
+        # packages, every other module of the package - bound here or not
+        structural = packages.namespace_names(pkg, mod)
+        structural_bound = [n for n in structural if n in kinds]
 
-        def ref_expr() -> str:
+        def ref_expr(in_class: bool = False) -> str:
             r = rng.random()
             if r < 0.08:
                 return rng.choice(BUILTINS)
@@ -186,9 +231,16 @@ def add_sites(rng: random.Random, pkg: packages.Pkg) -> dict[str, list[dict]]:  
                 cands = [x for x in pkg.defs.get(anc, {}) if x not in kinds and x != "__all__" and not hasattr(builtins, x)]
                 if cands:
                     return rng.choice(cands)
-            if not names:
+            if r < 0.175:
+                # a structural name, whatever its binding state (unbound ones must come back unchanged)
+                return rng.choice(structural)
+            pool = [n for n in names if not (in_class and mangles(n))]
+            if not pool:
                 return rng.choice(BUILTINS)
-            n = rng.choice(names)
+            n = rng.choice(pool)
+            if structural_bound and rng.random() < 0.25:
+                # a module-level binding spelled like the module itself / a package / another module
+                n = rng.choice(structural_bound)
             k = kinds[n]
             if k == packages.CLASS and rng.random() < 0.5:
                 return n + "." + rng.choice(["attr", "meth"])
@@ -205,17 +257,22 @@ def add_sites(rng: random.Random, pkg: packages.Pkg) -> dict[str, list[dict]]:  
         lines = pkg.lines[mod]
         lines.append("from typing import TYPE_CHECKING")
         out: list[dict] = []
-        shadow = rng.sample(names, min(len(names), rng.randint(1, 3))) if names else []
+        plain = [n for n in names if not mangles(n)]
+        shadow = rng.sample(plain, min(len(plain), rng.randint(1, 3))) if plain else []
+        # class members spelled like the scopes around them: the class itself, the containing module, a package
+        if rng.random() < 0.25:
+            shadow.append(rng.choice(["SiteK", own, own, rng.choice(structural)]))
+        shadow = list(dict.fromkeys(shadow))
         use_enclosing = rng.random() < 0.06
         # a base class whose members carry names that are module globals / unknown: Python does NOT see inherited names in
         # a class body (class scope = the body's own bindings, then module globals)
         inherit = rng.random() < 0.6
-        base_members = (rng.sample(names, min(len(names), rng.randint(1, 2))) if names else []) + ["base_only", rng.choice(UNKNOWN)]
+        base_members = (rng.sample(plain, min(len(plain), rng.randint(1, 2))) if plain else []) + ["base_only", rng.choice(UNKNOWN)]
         if inherit:
             lines.append("class SiteBase:\n" + "".join(f"    {b} = '{mod}.SiteBase.{b}'\n" for b in base_members))
         cls_lines = ["class SiteK(SiteBase):" if inherit else "class SiteK:"]
-        for s in shadow:
-            cls_lines.append(f"    {s} = '{mod}.SiteK.{s}'")
+        for sname in shadow:
+            cls_lines.append(f"    {sname} = '{mod}.SiteK.{sname}'")
         cls_lines.append("    own = 1")
         # imports written inside the class body (absolute and relative) bind class-level names
         class_imported: list[str] = []
@@ -224,82 +281,58 @@ def add_sites(rng: random.Random, pkg: packages.Pkg) -> dict[str, list[dict]]:  
             if not earlier:
                 break
             src = rng.choice(earlier)
-            src_names = [n for n, k in pkg.defs[src].items() if n != "__all__" and k != "module"]
+            src_names = [n for n, k in pkg.defs[src].items() if n != "__all__" and k != "module" and not mangles(n)]
             spelled = src
             rel = packages.relative(pkg, mod, src)
             if rel is not None and rng.random() < 0.7:
                 spelled = rel
+            # the class-level alias is sometimes spelled like the module / a package / the class
+            kname = rng.choice([own, "SiteK", rng.choice(structural)]) if rng.random() < 0.15 else f"kimp{j}"
+            if kname in class_imported or kname in shadow:
+                kname = f"kimp{j}"
             if src_names and rng.random() < 0.7:
                 nm = rng.choice(src_names)
-                cls_lines.append(f"    from {spelled} import {nm} as kimp{j}")
+                cls_lines.append(f"    from {spelled} import {nm} as {kname}")
             elif spelled.startswith(".") and "." not in spelled.lstrip(".") and spelled.lstrip("."):
                 dots = spelled[: len(spelled) - len(spelled.lstrip("."))]
-                cls_lines.append(f"    from {dots} import {spelled.lstrip('.')} as kimp{j}")
+                cls_lines.append(f"    from {dots} import {spelled.lstrip('.')} as {kname}")
             else:
-                cls_lines.append(f"    import {src} as kimp{j}")
-            class_imported.append(f"kimp{j}")
+                cls_lines.append(f"    import {src} as {kname}")
+            class_imported.append(kname)
         cls_lines.append("    if TYPE_CHECKING:")
-        for i in range(rng.randint(3, 6)):
-            e = rng.choice(shadow + ["own"]) if shadow and rng.random() < 0.45 else ref_expr()
+        for i in range(rng.randint(3, 7)):
+            e = rng.choice(shadow + ["own"]) if shadow and rng.random() < 0.45 else ref_expr(in_class=True)
             if inherit and rng.random() < 0.3:
                 e = rng.choice(base_members)
             if class_imported and rng.random() < 0.35:
                 e = rng.choice(class_imported)
-            form = rng.choice(["ann", "value", "param", "ret", "default"])
-            nm = f"ks{i}"
-            if form == "ann":
-                cls_lines.append(f"        {nm}: {e} = None")
-                loc = ("attr-annotation", nm)
-            elif form == "value":
-                cls_lines.append(f"        {nm} = [{e}]")
-                loc = ("attr-value", nm)
-            elif form == "param":
-                cls_lines.append(f"        def {nm}(self, p: {e}): ...")
-                loc = ("param-annotation", nm)
-            elif form == "ret":
-                cls_lines.append(f"        def {nm}(self) -> {e}: ...")
-                loc = ("return", nm)
-            else:
-                cls_lines.append(f"        def {nm}(self, p={e}): ...")
-                loc = ("param-default", nm)
+            text, loc = emit_site(rng.choice(FORMS_CLASS), f"ks{i}", e, "        ", method=True)
+            cls_lines.append(text)
             out.append({"classes": ["SiteK"], "expr": e, "loc": loc})
         cls_lines.append("    class Inner:")
         cls_lines.append("        inner_own = 2")
+        inner_members = ["inner_own"]
+        if rng.random() < 0.2:
+            # nested-class members spelled like the scopes around them
+            extra = rng.choice(["Inner", "SiteK", own, rng.choice(structural)])
+            if use_enclosing or extra not in shadow:
+                cls_lines.append(f"        {extra} = '{mod}.SiteK.Inner.{extra}'")
+                inner_members.append(extra)
         cls_lines.append("        if TYPE_CHECKING:")
-        for i in range(rng.randint(2, 4)):
-            e = rng.choice(shadow + ["own"]) if (use_enclosing and rng.random() < 0.5) else ("inner_own" if rng.random() < 0.2 else ref_expr())
-            if not use_enclosing and e.split(".")[0] in shadow:
-                e = "inner_own"
-            nm = f"is{i}"
-            cls_lines.append(f"            {nm}: {e} = None")
-            out.append({"classes": ["SiteK", "Inner"], "expr": e, "loc": ("attr-annotation", nm)})
+        for i in range(rng.randint(2, 5)):
+            e = rng.choice(shadow + ["own"]) if (use_enclosing and rng.random() < 0.5) else (
+                rng.choice(inner_members) if rng.random() < 0.2 else ref_expr(in_class=True))
+            if not use_enclosing and e.split(".")[0] in shadow + class_imported + ["own", "Inner"] and e.split(".")[0] not in inner_members:
+                e = rng.choice(inner_members)
+            text, loc = emit_site(rng.choice(FORMS_CLASS), f"is{i}", e, "            ", method=True)
+            cls_lines.append(text)
+            out.append({"classes": ["SiteK", "Inner"], "expr": e, "loc": loc})
         lines.append("\n".join(cls_lines))
         mlines = ["if TYPE_CHECKING:"]
         for i in range(rng.randint(4, 8)):
             e = ref_expr()
-            form = rng.choice(["ann", "value", "base", "deco", "param", "ret", "default"])
-            nm = f"ms{i}"
-            if form == "ann":
-                mlines.append(f"    {nm}: {e} = None")
-                loc = ("attr-annotation", nm)
-            elif form == "value":
-                mlines.append(f"    {nm} = ({e}, 1)")
-                loc = ("attr-value", nm)
-            elif form == "base":
-                mlines.append(f"    class {nm}({e}): ...")
-                loc = ("base", nm)
-            elif form == "deco":
-                mlines.append(f"    @{e}\n    def {nm}(): ...")
-                loc = ("decorator", nm)
-            elif form == "param":
-                mlines.append(f"    def {nm}(p: {e}): ...")
-                loc = ("param-annotation", nm)
-            elif form == "ret":
-                mlines.append(f"    def {nm}() -> {e}: ...")
-                loc = ("return", nm)
-            else:
-                mlines.append(f"    def {nm}(p={e}): ...")
-                loc = ("param-default", nm)
+            text, loc = emit_site(rng.choice(FORMS_MODULE), f"ms{i}", e, "    ", method=False)
+            mlines.append(text)
             out.append({"classes": [], "expr": e, "loc": loc})
         lines.append("\n".join(mlines))
         sites[mod] = out
@@ -342,8 +375,11 @@ def classify(site: dict, gmod, answer: str, rep: dict) -> tuple[str | None, list
             chain.append(scope)
         if root not in chain[-1].members:
             for enclosing in chain[:-1]:
-                if root in enclosing.members and answer.startswith(enclosing.path + "." + root):
-                    return "C04-enclosing-class-scope", tried
+                if root in enclosing.members:
+                    m = enclosing.members[root]
+                    found = m.target_path if m.is_alias else m.path   # what Object.resolve answers for a member
+                    if answer == found or answer.startswith(found + "."):
+                        return "C04-enclosing-class-scope", tried
     # C04-parent-package-scope: the root name is not bound in the site's module (nor in its class scopes) but is a member
     # of an ancestor *package*; Griffe continues the lookup there, Python does not.
     tried.append("C04-parent-package-scope")
@@ -364,6 +400,28 @@ def classify(site: dict, gmod, answer: str, rep: dict) -> tuple[str | None, list
                 break
             anc = anc.parent
     return None, tried
+
+
+def count_input_classes(rec, f: dict, r: dict, structural: set) -> None:  # noqa: ANN001
+    """Evidence for the classes of identifiers spelled like a scope around the site (module, package, class)."""
+    root = f["expr"].split(".")[0]
+    bound = r["bound"] and not r["builtin"]
+    depth = len(f["classes"])
+    if root == f["module"].rsplit(".", 1)[-1]:
+        if depth and bound:
+            rec.count("module_named_bound_roots_in_class_scope")
+        elif bound:
+            rec.count("module_named_bound_roots_in_module_scope")
+        else:
+            rec.count("module_named_unbound_roots")
+    elif root in structural:
+        rec.count("other_module_or_package_named_roots_bound" if bound else "other_module_or_package_named_roots_unbound")
+    if root in f["classes"] and bound:
+        rec.count("class_named_bound_roots_in_class_scope")
+    if depth and f.get("form") in ("decorator", "base"):
+        rec.count("decorator_or_base_sites_in_class_scope")
+    if packages.is_dunder(root) and bound:
+        rec.count("dunder_named_bound_roots")
 
 
 def run_case(rec, files: dict, sites: dict[str, list[dict]], top: str, nontrivial: bool) -> None:  # noqa: ANN001, C901, PLR0912
@@ -394,15 +452,20 @@ def run_case(rec, files: dict, sites: dict[str, list[dict]], top: str, nontrivia
                     if not isinstance(ans, str):
                         rec.fail(case, f"canonical_path of site {mod}:{s['loc']} is not a string", observed=repr(ans), nontrivial=nontrivial)
                         return
-                    flat.append({"module": mod, "classes": s["classes"], "expr": s["expr"], "griffe": ans})
+                    flat.append({"module": mod, "classes": s["classes"], "expr": s["expr"], "griffe": ans, "form": s["loc"][0]})
                     answers.append(ans)
                     if "." in s["expr"] and isinstance(expr, Expr) and hasattr(expr, "first") and isinstance(expr.first, Expr):
                         # the root of a dotted chain is judged on its own too (the chain itself only when CPython can evaluate it)
                         flat.append({"module": mod, "classes": s["classes"], "expr": s["expr"].split(".")[0],
-                                     "griffe": expr.first.canonical_path})
-            from vf.checks.c05 import implicit_submodule_names
+                                     "griffe": expr.first.canonical_path, "form": s["loc"][0]})
+            from vf.checks.c05 import implicit_submodule_names, statement_shadows_submodule
 
-            rep0 = server().import_package(str(root), [top])
+            if statement_shadows_submodule(files):
+                rec.skip("member-shadows-submodule")  # documented Griffe limitation, outside the domain (see C05)
+                return
+            # same import order as resolve_sites below: which implicitly bound sub-modules travel through wildcards depends
+            # on the order of import side effects, and the restriction must describe the state the sites are evaluated in
+            rep0 = server().import_package(str(root), [top], entry=list(sites))
             if not rep0.get("ok"):
                 rec.inconclusive(case, "reference child failed: " + str(rep0.get("error"))[:300])
                 return
@@ -424,6 +487,7 @@ def run_case(rec, files: dict, sites: dict[str, list[dict]], top: str, nontrivia
                 rec.skip("member-shadows-submodule")  # documented Griffe limitation, outside the domain (see C05)
                 return
             rec.count("packages_compared")
+            structural = {part for m in sites for part in m.split(".")}
             problem = None
             deferred = None
             # roots first: a dotted chain whose root is already refuted (listed or not) carries no verdict of its own
@@ -445,6 +509,7 @@ def run_case(rec, files: dict, sites: dict[str, list[dict]], top: str, nontrivia
                     rec.count("class_scope_sites")
                 elif len(f["classes"]) == 2:
                     rec.count("nested_class_sites")
+                count_input_classes(rec, f, r, structural)
                 gmod = loader.modules_collection.get_member(f["module"])
                 if f["expr"].split(".")[0] in implicit.get(f["module"], ()) and not any(
                         f["expr"].split(".")[0] in vars_ for vars_ in ()):
